@@ -82,6 +82,12 @@ impl<'s, M: Matcher, S: Sink> Core<'s, M, S> {
         self.binary_byte_offset.map(|offset| offset as u64)
     }
 
+    /// Whether the search stops at the first occurrence of binary data
+    /// (as opposed to reporting it and searching on).
+    pub(crate) fn quits_on_binary(&self) -> bool {
+        self.config.binary.quit_byte().is_some()
+    }
+
     pub(crate) fn matcher(&self) -> &M {
         &self.matcher
     }
